@@ -496,7 +496,8 @@ func (s *clientSocket) emitBuffered() {
 			sent, ok := ackIDs[*event.header.ID]
 			if ok && sent {
 				mu.Unlock()
-				return
+				// Not `return`: the remaining events and the send buffer still have to be flushed.
+				continue
 			}
 			ackIDs[*event.header.ID] = true
 			mu.Unlock()
@@ -901,13 +902,24 @@ func (s *clientSocket) _sendBuffers(volatile, forceSend bool, ackID *uint64, buf
 			}
 		}
 
-		s.stateMu.RLock()
-		sendImmediately := s.state == clientSocketConnStateConnected || s.state == clientSocketConnStateConnectPending
-		s.stateMu.RUnlock()
-		if sendImmediately || forceSend {
+		if forceSend {
 			s.manager.packet(packets...)
-		} else if !volatile {
-			s.sendBufferMu.Lock()
+			return
+		}
+
+		// Events may only be sent once the server has accepted the CONNECT of this
+		// namespace: while the CONNECT is pending the server treats them as a protocol
+		// error and closes the whole connection. Until then they are buffered, and they
+		// keep being buffered while packets buffered earlier have not been flushed yet,
+		// so that the order of emission is preserved. onConnect flushes the buffer.
+		s.sendBufferMu.Lock()
+		s.stateMu.RLock()
+		connected := s.state == clientSocketConnStateConnected
+		s.stateMu.RUnlock()
+		if connected && len(s.sendBuffer) == 0 {
+			s.sendBufferMu.Unlock()
+			s.manager.packet(packets...)
+		} else if connected || !volatile {
 			buffers := make([]sendBufferItem, len(packets))
 			for i := range buffers {
 				buffers[i] = sendBufferItem{
@@ -918,6 +930,7 @@ func (s *clientSocket) _sendBuffers(volatile, forceSend bool, ackID *uint64, buf
 			s.sendBuffer = append(s.sendBuffer, buffers...)
 			s.sendBufferMu.Unlock()
 		} else {
+			s.sendBufferMu.Unlock()
 			s.debug.Log("Packet is discarded")
 		}
 	}
